@@ -26,12 +26,13 @@ def finding_dict(f):
 
 
 def _merge_job(args):
-    repo, cname = args
+    repo, cname = args[:2]
+    envelope_only = len(args) > 2 and args[2]
     t0 = time.time()
     try:
         from .rules_merge import MergeFlow
         prog = program(repo)
-        mf = MergeFlow(prog, cname).run()
+        mf = MergeFlow(prog, cname, envelope_only=envelope_only).run()
         return {'class': cname, 'ok': True, 'findings': [finding_dict(f) for f in mf.findings.values()],
                 'sites': {k: sorted(v) for k, v in mf.sites.items()}, 'outcomes': mf.outcomes,
                 'notes': mf.notes, 'stats': mf.stats, 'functions': sorted(mf.functions_entered),
@@ -94,6 +95,18 @@ def merge_results(repo: str) -> Dict[str, dict]:
         heavy = ['EAStoryInsert', 'StoryInsert', 'StorySend', 'ItemDelete', 'StoryDelete']
         names.sort(key=lambda n: (heavy.index(n) if n in heavy else 99))
         res = pool_map(_merge_job, [(repo, n) for n in names])
+        _CACHE[key] = {r['class']: r for r in res}
+    return _CACHE[key]
+
+
+def envelope_results(repo: str) -> Dict[str, dict]:
+    """Merge analysis with only the envelope assumed about the message (used for atomicity: C05 quantifies over
+    every message that makes the merge raise, not only schema-shaped ones)."""
+    key = 'envelope:' + repo
+    if key not in _CACHE:
+        prog = program(repo)
+        names = merge_classes(prog)
+        res = pool_map(_merge_job, [(repo, n, True) for n in names])
         _CACHE[key] = {r['class']: r for r in res}
     return _CACHE[key]
 
